@@ -16,7 +16,8 @@ type fnCase struct {
 	A     []int  `json:"a"`  // list values, or catalog keys in order
 	B     []int  `json:"b"`  // list values, catalog keys, or requested keys (Extract)
 	Alias bool   `json:"alias,omitempty"`
-	Zero  bool   `json:"zero,omitempty"` // Extract: the catalog stores the zero value under its first key
+	Zero  bool   `json:"zero,omitempty"` // Extract: the catalog stores the zero value under its first key; Merge: under every other key
+	Elem  string `json:"elem,omitempty"` // Concatenate: element type (codec)
 }
 
 func pairsString(ps []kv) string {
@@ -71,100 +72,134 @@ func coherent(c col.CatalogLike[int, int], universe int) bool {
 	return true
 }
 
-func execFnCase(c fnCase, _ core.Source) (res core.Result) {
+func execFnCase(c fnCase, s core.Source) (res core.Result) {
+	if c.Fn == "Concatenate" {
+		switch c.Elem {
+		case "any":
+			return execConcat(c, cdAny)
+		case "string":
+			return execConcat(c, cdString)
+		case "slice":
+			return execConcat(c, cdSlice)
+		case "ptr":
+			return execConcat(c, cdPtr)
+		}
+		return execConcat(c, cdInt)
+	}
+	return execFnOther(c, s)
+}
+
+func execConcat[E any](c fnCase, cd codec[E]) (res core.Result) {
 	n := lib.Notation()
-	switch c.Fn {
-	case "Concatenate":
-		L := col.List[int](n)
-		a := L.MakeFromArray(c.A)
+	ints := cd.name == "int" // the natural order is defined for one ordered type
+	arr := func(l col.ListLike[E]) []int { return decAll(cd, l.AsArray()) }
+	{
+		L := col.List[E](n)
+		a := L.MakeFromArray(encAll(cd, c.A))
 		b := a
 		bvals := c.A
 		if !c.Alias {
-			b = L.MakeFromArray(c.B)
+			b = L.MakeFromArray(encAll(cd, c.B))
 			bvals = c.B
 		}
 		want := append(append([]int{}, c.A...), bvals...)
-		var r col.ListLike[int]
+		var r col.ListLike[E]
 		p, payload := lib.Call(func() { r = L.Concatenate(a, b) })
 		desc := fmt.Sprintf("Concatenate(%v, %v)", c.A, bvals)
 		if p || r == nil {
 			res.Violation = core.Violate("C16/Concatenate/panicked", "%s panicked or returned nil: %s", desc, lib.Short(payload))
 			return
 		}
-		if !lib.EqInts(r.AsArray(), want) {
-			res.Violation = core.Violate("C16/Concatenate/wrong", "%s = %v, expected %v", desc, r.AsArray(), want)
+		if !lib.EqInts(arr(r), want) {
+			res.Violation = core.Violate("C16/Concatenate/wrong", "%s = %v, expected %v", desc, arr(r), want)
 			return
 		}
 		if any(r) == any(a) || any(r) == any(b) {
 			res.Violation = core.Violate("C16/Concatenate/not-new", "%s returned an operand", desc)
 			return
 		}
-		if !lib.EqInts(a.AsArray(), c.A) || !lib.EqInts(b.AsArray(), bvals) {
-			res.Violation = core.Violate("C16/Concatenate/operand-changed", "%s changed an operand: %v %v", desc, a.AsArray(), b.AsArray())
+		if !lib.EqInts(arr(a), c.A) || !lib.EqInts(arr(b), bvals) {
+			res.Violation = core.Violate("C16/Concatenate/operand-changed", "%s changed an operand: %v %v", desc, arr(a), arr(b))
 			return
 		}
 		// purity: mutate the result, then the operands -- in place first (a shared backing array
 		// survives only until the next structural change), then structurally
 		if r.GetSize() > 0 {
-			r.SetValue(1, 98)
-			r.SetValue(-1, 97)
+			r.SetValue(1, cd.enc(98))
+			r.SetValue(-1, cd.enc(97))
 			r.ReverseValues()
-			r.SortValues()
+			if ints {
+				r.SortValues()
+			}
 		}
-		if !lib.EqInts(a.AsArray(), c.A) || !lib.EqInts(b.AsArray(), bvals) {
-			res.Violation = core.Violate("C16/Concatenate/result-aliases-operand", "mutating the result of %s in place changed an operand: %v %v", desc, a.AsArray(), b.AsArray())
+		if !lib.EqInts(arr(a), c.A) || !lib.EqInts(arr(b), bvals) {
+			res.Violation = core.Violate("C16/Concatenate/result-aliases-operand", "mutating the result of %s in place changed an operand: %v %v", desc, arr(a), arr(b))
 			return
 		}
-		inplace := r.AsArray()
+		inplace := arr(r)
 		if a.GetSize() > 0 {
-			a.SetValue(1, 76)
+			a.SetValue(1, cd.enc(76))
 			a.ReverseValues()
 		}
 		if b.GetSize() > 0 {
-			b.SetValue(-1, 75)
-			b.SortValues()
+			b.SetValue(-1, cd.enc(75))
+			if ints {
+				b.SortValues()
+			}
 		}
-		if !lib.EqInts(r.AsArray(), inplace) {
-			res.Violation = core.Violate("C16/Concatenate/operand-aliases-result", "mutating an operand of %s in place changed the result: %v -> %v", desc, inplace, r.AsArray())
+		if !lib.EqInts(arr(r), inplace) {
+			res.Violation = core.Violate("C16/Concatenate/operand-aliases-result", "mutating an operand of %s in place changed the result: %v -> %v", desc, inplace, arr(r))
 			return
 		}
-		a = L.MakeFromArray(c.A)
+		a = L.MakeFromArray(encAll(cd, c.A))
 		b = a
 		if !c.Alias {
-			b = L.MakeFromArray(c.B)
+			b = L.MakeFromArray(encAll(cd, c.B))
 		}
 		r = L.Concatenate(a, b)
-		r.AppendValue(99)
+		r.AppendValue(cd.enc(99))
 		if r.GetSize() > 1 {
-			r.SetValue(1, 98)
+			r.SetValue(1, cd.enc(98))
 			r.RemoveValue(-2)
 		}
-		if !lib.EqInts(a.AsArray(), c.A) || !lib.EqInts(b.AsArray(), bvals) {
-			res.Violation = core.Violate("C16/Concatenate/result-aliases-operand", "mutating the result of %s changed an operand: %v %v", desc, a.AsArray(), b.AsArray())
+		if !lib.EqInts(arr(a), c.A) || !lib.EqInts(arr(b), bvals) {
+			res.Violation = core.Violate("C16/Concatenate/result-aliases-operand", "mutating the result of %s changed an operand: %v %v", desc, arr(a), arr(b))
 			return
 		}
-		snapshot := r.AsArray()
-		a.AppendValue(77)
+		snapshot := arr(r)
+		a.AppendValue(cd.enc(77))
 		if a.GetSize() > 1 {
-			a.SetValue(1, 76)
+			a.SetValue(1, cd.enc(76))
 		}
 		b.RemoveAll()
-		if !lib.EqInts(r.AsArray(), snapshot) {
-			res.Violation = core.Violate("C16/Concatenate/operand-aliases-result", "mutating an operand of %s changed the result: %v -> %v", desc, snapshot, r.AsArray())
+		if !lib.EqInts(arr(r), snapshot) {
+			res.Violation = core.Violate("C16/Concatenate/operand-aliases-result", "mutating an operand of %s changed the result: %v -> %v", desc, snapshot, arr(r))
 			return
 		}
 		res.NonTrivial = len(c.A) > 0 && len(bvals) > 0
 		if c.Alias {
 			res.Classes = append(res.Classes, "aliased")
 		}
+		res.Classes = append(res.Classes, "fn-Concatenate", "elem-"+cd.name)
+	}
+	return
+}
+
+func execFnOther(c fnCase, _ core.Source) (res core.Result) {
+	n := lib.Notation()
+	switch c.Fn {
 	case "Merge":
 		C := col.Catalog[int, int](n)
 		mk := func(keys []int, operand int) (col.CatalogLike[int, int], []kv) {
 			cat := C.Make()
 			pairs := []kv{}
 			for _, k := range keys {
-				cat.SetValue(k, 100*operand+k)
-				pairs = append(pairs, kv{k, 100*operand + k})
+				v := 100*operand + k
+				if c.Zero && (k+operand)%2 == 0 {
+					v = 0 // a present key that stores the zero value
+				}
+				cat.SetValue(k, v)
+				pairs = append(pairs, kv{k, v})
 			}
 			return cat, pairs
 		}
@@ -250,6 +285,9 @@ func execFnCase(c fnCase, _ core.Source) (res core.Result) {
 		res.NonTrivial = !c.Alias && shared > 0 && fresh > 0
 		if c.Alias {
 			res.Classes = append(res.Classes, "aliased")
+		}
+		if c.Zero {
+			res.Classes = append(res.Classes, "zero-values")
 		}
 	case "Extract":
 		C := col.Catalog[int, int](n)
@@ -383,6 +421,7 @@ func genFnExhaustive(s core.Source) fnCase {
 	c := fnCase{Fn: core.Pick(s, []string{"Concatenate", "Merge", "Extract"}, "fn")}
 	switch c.Fn {
 	case "Concatenate":
+		c.Elem = core.Pick(s, []string{"int", "any"}, "elem")
 		c.A = enumList(s, 3, 4, "a")
 		if s.Choose(2, "alias") == 1 {
 			c.Alias = true
@@ -390,6 +429,7 @@ func genFnExhaustive(s core.Source) fnCase {
 			c.B = enumList(s, 3, 4, "b")
 		}
 	case "Merge":
+		c.Zero = s.Choose(2, "zero") == 1
 		c.A = enumOrderedSubset(s, 4, "a")
 		if s.Choose(2, "alias") == 1 {
 			c.Alias = true
@@ -409,9 +449,11 @@ func genFnRandom(s core.Source) fnCase {
 	c.Alias = c.Fn != "Extract" && s.Choose(5, "alias") == 0
 	switch c.Fn {
 	case "Concatenate":
-		c.A = enumList(s, 6, 12, "a")
-		c.B = enumList(s, 6, 12, "b")
+		c.Elem = core.Pick(s, codecNames, "elem")
+		c.A = enumList(s, 8, 12, "a")
+		c.B = enumList(s, 8, 12, "b")
 	case "Merge":
+		c.Zero = s.Choose(2, "zero") == 1
 		c.A = enumOrderedSubset(s, 7, "a")
 		c.B = enumOrderedSubset(s, 7, "b")
 	case "Extract":
